@@ -174,3 +174,10 @@ def shrink_candidates(case):
             c = copy.deepcopy(case)
             del c["queries"][i]
             yield c
+
+
+UNITS_NAME = "queries_run_warm_and_cold"
+
+
+def units(case, r):
+    return len(case['queries'])
